@@ -122,8 +122,31 @@ func ruleR16a(h *H) {
 	// parameters: the generator takes only the batch and the request
 	for f := range roots {
 		extra := ""
-		for _, p := range f.Params {
-			if !ir.TypeIs(p.Type(), "server/kv", "WriteBatch") && !ir.TypeIs(p.Type(), "proto", "PutRequest") {
+		for pi, p := range f.Params {
+			if ir.TypeIs(p.Type(), "server/kv", "WriteBatch") || ir.TypeIs(p.Type(), "proto", "PutRequest") {
+				continue
+			}
+			// a part of the request handed in separately (its key, the number of its
+			// deltas): every static caller must take it from a PutRequest and nothing else
+			fromRequest := len(ir.StaticCallSites(f)) > 0
+			for _, cs := range ir.StaticCallSites(f) {
+				if pi >= len(cs.Common().Args) {
+					fromRequest = false
+					continue
+				}
+				a := cs.Common().Args[pi]
+				reqOnly := ir.DependsOn(a, func(v ssa.Value) bool {
+					r, ok := ir.FieldLoadOf(ir.Canon(v))
+					return ok && r.Struct != nil && r.Struct.Obj().Name() == "PutRequest"
+				}) && !ir.DependsOn(a, func(v ssa.Value) bool {
+					r, ok := ir.FieldLoadOf(ir.Canon(v))
+					return ok && r.Struct != nil && r.Struct.Obj().Pkg() != nil && ir.RelPkg(r.Struct.Obj().Pkg().Path()) == "server/kv"
+				})
+				if !reqOnly {
+					fromRequest = false
+				}
+			}
+			if !fromRequest {
 				extra = p.Name() + " " + p.Type().String()
 			}
 		}
